@@ -308,7 +308,6 @@ def check_case(case, rec):
         rec.check('exactly-one-primary', npri == 1, msg=f'{what}: {npri} primary wavelengths')
 
     wl_check('after construction')
-    thick_obj_inf = False
     def stop_moved_to_object_image():
         # a solve at or in front of the stop of a finite-object lens moves the stop (known mechanism
         # solve-moves-entrance-pupil); when it lands on the image of the axial object point the entrance pupil is
@@ -348,16 +347,13 @@ def check_case(case, rec):
             _, v, k = op
             lens.set_thickness(v, k)
             if k == 0:
-                if math.isinf(expect[0]['z']):
-                    key = 'set-thickness-object-infinite'
-                    thick_obj_inf = True
+                # (a lens whose object was at infinity gets a finite object distance: the mechanism
+                #  set-thickness-object-infinite was repaired in the repository, nothing is special-cased any more)
                 expect[0]['z'] = -v
             else:
                 delta = v - (expect[k + 1]['z'] - expect[k]['z'])
                 for j in range(k + 1, nK):
                     expect[j]['z'] += delta
-            if thick_obj_inf:
-                key = 'set-thickness-object-infinite'
             rb = float(np.ravel(lens.surface_group.get_thickness(k))[0])
             rec.check('frame+readback', abs(rb - v) <= 1e-9 * max(1.0, scale, abs(v)),
                       key=('frame+readback:' + key) if key else None,
@@ -385,7 +381,6 @@ def check_case(case, rec):
             # a thickness is read back as a difference of vertex positions: its rounding scales with the positions
             tol_rb = 1e-12 * max(1.0, abs(v), scale if kind == 'thickness' else 0.0) + (1e-13 if scaled else 0.0)
             rec.check('frame+readback', abs(rb - v) <= tol_rb,
-                      key=('frame+readback:set-thickness-object-infinite' if thick_obj_inf else None),
                       msg=f'Variable({kind}, scaled={scaled}).update({v}) reads back {rb}')
             k = kw['surface_number']
             after = snapshot(lens)
@@ -466,19 +461,15 @@ def check_case(case, rec):
             # everything else is frame. z of moved surfaces is adopted from the live lens.
             for j in range(rigid_from, nK):
                 expect[j]['z'] = after[j]['z']
-        if thick_obj_inf and key is None:
-            key = 'set-thickness-object-infinite'     # NaN vertices persist after that operation
         diffs = compare(rec, 'frame+readback', after, expect, scale, f'after {op}',
                         key=('frame+readback:' + key) if key else None)
         sh = expect if not diffs else [dict(e, **{f: a[f] for f in FIELDS}) for e, a in zip(expect, after)]
-        if thick_obj_inf:
-            break       # every vertex is NaN from here on (recorded once under its mechanism key)
         # solve / pickup clauses, decided where the statement makes them observable: after update(), add and image_solve
-        if name in ('update', 'solve', 'image_solve') and not thick_obj_inf:
+        if name in ('update', 'solve', 'image_solve'):
             check_solves(rec, lens, solves if name != 'image_solve' else [], scale, name, nK,
                          finite_obj=not math.isinf(sh[0]['z']), stop_idx=[d['stop'] for d in sh].index(True),
                          onepass=(solve_onepass_exact if name == 'solve' else None))
-        if name == 'update' and not thick_obj_inf:
+        if name == 'update':
             check_pickups(rec, lens, pickups, scale)
     if len(sh) >= 4 and len(kinds) >= 2:
         rec.nontrivial_case()
